@@ -22,7 +22,9 @@ Fresh == pre' = <<>> /\ shown' = {} /\ ustack' = <<>> /\ killed' = FALSE /\ init
 TCase    == Is("case") /\ Fresh
 \* a new Readline call on the same Shell: edited history lines keep their undo lists across calls,
 \* so what was shown in earlier calls still counts as "previously shown"
-TSession == Is("session") /\ pre' = <<>> /\ ustack' = <<>> /\ killed' = FALSE /\ initial' = NoInit /\ clean' = TRUE
+\* (cmd = "dirty": the previous call was ended from outside - the harness closed the terminal under it - and left its undo
+\*  list behind: BottomIsInitial is not asserted for the call that follows)
+TSession == Is("session") /\ pre' = <<>> /\ ustack' = <<>> /\ killed' = FALSE /\ initial' = NoInit /\ clean' = (Ev.cmd # "dirty")
             /\ UNCHANGED shown
 TWait == /\ Is("wait")
          /\ shown' = IF Ev.minibuf THEN shown ELSE shown \cup {Ev.line}
